@@ -138,11 +138,12 @@ pub fn setup_ops(r: &mut Rng, c: &GenCfg) -> Vec<Op> {
     for a in &c.pool {
         // accounts may carry the same attribute name more than once (multi-valued attributes)
         let names: Vec<String> = match r.below(20) {
-            0..=14 => vec!["kyc".into(), "acc".into(), "x".into()],
+            0..=13 => vec!["kyc".into(), "acc".into(), "x".into()],
             15 => vec!["kyc".into()],
             16 => vec!["kyc".into(), "kyc".into()],
             17 => vec!["acc".into(), "acc".into(), "x".into()],
             18 => vec!["kyc".into(), "acc".into(), "acc".into(), "kyc".into()],
+            14 => vec!["notkyc".into(), "kyc2".into(), "acc".into(), "x".into(), "account".into()], // names that merely CONTAIN a required name
             _ => vec![],
         };
         ops.push(Op::SetAttrs { account: a.clone(), names });
@@ -438,11 +439,12 @@ pub fn gen_chain_change(r: &mut Rng, w: &World, pool: &[String]) -> Op {
     if r.chance(15) {
         return Op::SetAttrFail { on: !w.chain.attr_query_fails };
     }
-    let names: Vec<String> = match r.below(6) {
+    let names: Vec<String> = match r.below(7) {
         0 => vec![],
         1 => vec!["kyc".into()],
         2 => vec!["kyc".into(), "kyc".into()],
         3 => vec!["acc".into(), "x".into(), "acc".into()],
+        5 => vec!["mykyc".into(), "kyc.old".into(), "acc".into(), "xx".into()],
         _ => vec!["kyc".into(), "acc".into(), "x".into()],
     };
     Op::SetAttrs { account: r.pick(pool).clone(), names }
